@@ -72,7 +72,7 @@ def run_history(ctx, R, rng, cache, nops, script=None):
             if r < .45:
                 op = rng.choice(MUTATORS)
             else:
-                op = rng.choice(['iter_full', 'iter_part', 'iter_part', 'resume_live', 'resume_live', 'count', 'getitem', 'contains', 'after',
+                op = rng.choice(['iter_full', 'iter_part', 'iter_part', 'resume_live', 'resume_live', 'resume_old', 'count', 'getitem', 'contains', 'after',
                                  'before', 'between', 'check', 'check'])
             if op in ('rrule', 'exrule'):
                 arg = U.kw_json(U.finite_rule_kw(rng, R, grid=True, maxlen=21))
@@ -89,7 +89,7 @@ def run_history(ctx, R, rng, cache, nops, script=None):
             elif op == 'between':
                 a, b = sorted([rnd_date(rng), rnd_date(rng)])
                 arg = [U.iso(a), U.iso(b), rng.random() < .5]
-            elif op == 'resume_live':
+            elif op in ('resume_live', 'resume_old'):
                 arg = rng.randint(1, 40)
             else:
                 arg = None
@@ -121,7 +121,7 @@ def run_history(ctx, R, rng, cache, nops, script=None):
                 got, exp = outcome(lambda: list(itertools.islice(it, arg))), ('ok', L[:arg])
                 live.append(it)
                 iterated = True
-            elif op == 'resume_live':
+            elif op in ('resume_live', 'resume_old'):
                 if not live:
                     if not last:
                         continue
@@ -130,6 +130,8 @@ def run_history(ctx, R, rng, cache, nops, script=None):
                     it = None
                 if it is None:
                     it = live[rng.randrange(len(live))] if script is None else live[-1]
+                if op == 'resume_old' and live:
+                    it = live[0]
                 # its own output is not judged (created before later additions); it must not raise and must not damage
                 # later iterations / queries, which the post-check below verifies
                 got = outcome(lambda: len(list(itertools.islice(it, arg))) >= 0)
@@ -216,6 +218,27 @@ def directed(ctx, R):
         ctx.count('directed_histories')
 
 
+def stale_iterator_sweep(ctx, R):
+    """an iterator opened before a member is added and resumed afterwards - before, between or after newer iterations -
+    must not damage what later iterations and queries see (lengths at and around the cache fill batch)"""
+    import random
+    st = U.BASE
+    mods = [['rdate', U.iso(st + D.timedelta(days=400))], ['rdate', U.iso(st - D.timedelta(days=4))], ['rdate', U.iso(st + D.timedelta(days=2, hours=5))],
+            ['exdate', U.iso(st + D.timedelta(days=3))], ['rrule', U.kw_json({'freq': R.DAILY, 'dtstart': st + D.timedelta(days=500), 'count': 3})],
+            ['exrule', U.kw_json({'freq': R.DAILY, 'dtstart': st + D.timedelta(days=8), 'count': 5})]]
+    for n in (9, 10, 11, 20):
+        for k_old in (0, 1, 10):
+            for mod in mods:
+                for k_new in (0, 1, 10, 11, 40):
+                    for cache in (True, False):
+                        if not cache and (k_new not in (1, 40) or k_old != 1):
+                            continue
+                        script = [['rrule', U.kw_json({'freq': R.DAILY, 'dtstart': st, 'count': n})], ['iter_part', k_old], mod,
+                                  ['iter_part', k_new], ['resume_old', 60], ['check', None], ['resume_live', 60], ['count', None], ['iter_full', None]]
+                        run_history(ctx, R, random.Random(0), cache, 0, script)
+                        ctx.count('stale_iterator_histories')
+
+
 def run(ctx):
     from dateutil import rrule as R
     rng = ctx.rng
@@ -234,6 +257,8 @@ def run(ctx):
             ctx.sample({'cache': cache, 'history': [[s[0], s[1] if not isinstance(s[1], dict) else '<rule %s>' % s[1].get('freq')] for s in hist]})
     if ctx.shard == 0:
         directed(ctx, R)
+    if ctx.shard == 1 % ctx.nshards:
+        stale_iterator_sweep(ctx, R)
 
 
 def floors(agg, tier):
